@@ -57,6 +57,7 @@ struct MNode {
   MSource* tok = nullptr;   // stop token this node's receiver exposes (nullptr = unstoppable)
   int sched_ctx = -1;       // get_scheduler(receiver) as seen by this node (-1 = root's scheduler)
   long tag = 0;             // verif_tag as seen by this node
+  long alloc = 1;           // id of the allocator get_allocator(receiver) yields (-1: default std::allocator)
   bool started = false, completed = false;
   std::vector<std::unique_ptr<MNode>> kids;
   virtual ~MNode() = default;
@@ -64,12 +65,12 @@ struct MNode {
   virtual void child_done(int, Result) {}
   void finish(Result r);
   MNode* make_child(int idx, int slot_);
-  void start_child(MNode* c, MSource* t) { c->tok = t; c->sched_ctx = sched_ctx; c->tag = tag; c->started = true; c->start(); }
+  void start_child(MNode* c, MSource* t) { c->tok = t; c->sched_ctx = sched_ctx; c->tag = tag; c->alloc = alloc; c->started = true; c->start(); }
 };
 
 struct PendingKey { int leaf, inst, kind; bool operator<(const PendingKey& o) const { return std::tie(leaf, inst, kind) < std::tie(o.leaf, o.inst, o.kind); } bool operator==(const PendingKey& o) const { return leaf == o.leaf && inst == o.inst && kind == o.kind; } };
 
-struct MLeafRun { bool started = false, completed = false, stop_seen = false; int chan = NONE; int start_ctx = -1; bool tok_possible = false; int sched = -1; long tag = 0; };
+struct MLeafRun { bool started = false, completed = false, stop_seen = false; int chan = NONE; int start_ctx = -1; bool tok_possible = false; int sched = -1; long tag = 0; long alloc = 1; };
 
 struct Model {
   const ShapeDesc& sd;
@@ -77,6 +78,7 @@ struct Model {
   std::map<int, int> node_arg;
   int fault_node = -1, fault_call = -1;   // callable of node `fault_node` throws on its `fault_call`-th invocation
   bool fault_fired = false;
+  bool unspecified = false;   // the documents do not define the outcome of this situation: comparisons stop
   MSource root_src; bool root_stoppable = true;
   std::unique_ptr<MNode> root;
   bool done = false; Result result; int result_ctx = -1;
@@ -135,7 +137,7 @@ struct MLeaf : MNode {
     auto& run = M->runs[{d->a, inst}];
     run.completed = true; run.chan = chan;
     Result r; r.chan = chan;
-    if (chan == VALUE) r.payload = d->kind == K_LEAF ? sr::mix(100 + (uint64_t)d->a, (uint64_t)inst) : 0;
+    if (chan == VALUE) r.payload = d->kind != K_LEAFV ? sr::mix(100 + (uint64_t)d->a, (uint64_t)inst) : 0;
     else if (chan == ERROR) r.err = errkind == 0 ? 2000000 + d->a * 100 + inst : 3000000 + d->a * 100 + inst;
     finish(r);
   }
@@ -155,7 +157,7 @@ struct MLeaf : MNode {
   void start() override {
     inst = M->new_inst(d->a);
     auto& run = M->runs[{d->a, inst}];
-    run.started = true; run.start_ctx = M->cur_ctx; run.tok_possible = tok != nullptr; run.sched = sched_ctx; run.tag = tag;
+    run.started = true; run.start_ctx = M->cur_ctx; run.tok_possible = tok != nullptr; run.sched = sched_ctx; run.tag = tag; run.alloc = alloc;
     const auto& sp = M->spec[(size_t)d->a];
     const auto at = sp.at(inst);
     lis.fn = [this] { on_stop(); };
@@ -228,7 +230,10 @@ struct MMap : MNode {
   }
 };
 struct MUnstoppable : MMap { MSource* child_tok() override { return nullptr; } };  // unstoppable(): child sees unstoppable_token
-struct MWithQuery : MMap { void start() override { MNode* c = kids[0].get(); c->tok = tok; c->sched_ctx = sched_ctx; c->tag = d->nid; c->started = true; c->start(); } };
+struct MWithQuery : MMap { void start() override { MNode* c = kids[0].get(); c->tok = tok; c->sched_ctx = sched_ctx; c->tag = d->nid; c->alloc = alloc; c->started = true; c->start(); } };
+// any_sender_of<Ts...> declared without extra queries forwards only the stop token (adapted); scheduler, allocator and custom
+// queries fall back to their defaults (type-erased wrappers forward exactly the set of queries they were declared with)
+struct MAny : MMap { void start() override { MNode* c = kids[0].get(); c->tok = tok; c->sched_ctx = -1; c->tag = -1; c->alloc = -1; c->started = true; c->start(); } };
 
 // ------------------------------------------------------------------ let_value / let_error / let_done / defer / let_value_with
 // let_value: predecessor value -> func(value&) -> successor result; done/error pass through without invoking func.
@@ -277,7 +282,7 @@ struct MOn : MNode {
   void child_done(int s, Result r) override {
     if (s == 1) return finish(r);
     if (r.chan != VALUE) return finish(r);
-    MNode* c = kids[1].get(); c->tok = tok; c->sched_ctx = d->a; c->tag = tag; c->started = true; c->start();
+    MNode* c = kids[1].get(); c->tok = tok; c->sched_ctx = d->a; c->tag = tag; c->alloc = alloc; c->started = true; c->start();
   }
 };
 
@@ -329,7 +334,12 @@ struct MWhenAny : MNode {
   }
   void child_done(int, Result r) override {
     if (!have) { have = true; first = r; ss.request_stop(); }
-    if (--remaining == 0) { up.dereg(); finish(first); }
+    if (--remaining == 0) {
+      up.dereg();
+      // the reference text does not say what when_any yields when its own receiver's stop token fires
+      if (tok && tok->stopped) M->unspecified = true;
+      finish(first);
+    }
   }
 };
 
@@ -413,11 +423,12 @@ inline std::unique_ptr<MNode> Model::build(int idx) {
   const NodeDesc* d = &sd.nodes[idx];
   std::unique_ptr<MNode> n;
   switch (d->kind) {
-    case K_LEAF: case K_LEAFV: n.reset(new MLeaf()); break;
+    case K_LEAF: case K_LEAFV: case K_LEAF_AI: case K_LEAF_ND: n.reset(new MLeaf()); break;
     case K_SCHEDULE: { auto* s = new MSchedule(); s->ctx = d->a; n.reset(s); break; }
     case K_JUST: case K_JUST_FROM: case K_JVOD: case K_SIR: case K_REF: case K_ERRREF: case K_REQSTOP: n.reset(new MInline()); break;
     case K_THEN: case K_E2V: case K_V2E: case K_UPON_ERROR: case K_UPON_DONE: case K_MATDEMAT: case K_DONE_AS_OPT:
-    case K_ANY: case K_ALLOCATE: case K_INTO_VARIANT: case K_WITH_ALLOC: case K_LVWST: n.reset(new MMap()); break;
+    case K_ALLOCATE: case K_INTO_VARIANT: case K_WITH_ALLOC: case K_LVWST: n.reset(new MMap()); break;
+    case K_ANY: n.reset(new MAny()); break;
     case K_WITH_QUERY: n.reset(new MWithQuery()); break;
     case K_UNSTOPPABLE: n.reset(new MUnstoppable()); break;
     case K_LET_VALUE: case K_LET_ERROR: case K_LET_DONE: case K_DEFER: case K_LVW: n.reset(new MLet()); break;
